@@ -28,7 +28,7 @@ type mistake struct {
 
 var classes = []string{
 	"non-function-target", "cb-too-few-params", "cb-too-many-params", "cb-too-few-results", "cb-too-many-results", "cb-param-size", "cb-result-size",
-	"when-too-few", "ret-too-few", "ret-size", "returns-size", "returns-too-few", "method-ret-size", "method-returns-size", "method-when-too-few",
+	"when-too-few", "when-too-few-chained", "ret-too-few", "ret-size", "returns-size", "returns-too-few", "method-ret-size", "method-returns-size", "method-when-too-few",
 	"iface-ret-size", "iface-returns-size", "unknown-method", "unknown-symbol", "unknown-struct-method-by-name",
 	"iface-non-pointer", "iface-ptr-to-non-iface", "iface-cb-no-ctx", "iface-cb-too-few", "iface-cb-too-many", "iface-cb-results", "iface-unknown-method",
 }
@@ -53,10 +53,31 @@ var mxFn = &corpus.Fn{ID: -1, Name: "(*mxT).Add (method expression)", Fn: (*mxT)
 		return []reflect.Value{reflect.ValueOf(recv.Add(int(a[1].Int()), a[2].String()))}
 	}}
 
+// variadic targets with two and three fixed parameters (a condition may be shorter than the fixed part only by mistake)
+var vaRan [2]int64
+
+//go:noinline
+func va2(a int, s string, v ...int) int { vaRan[0]++; return a + len(s) + len(v) }
+
+//go:noinline
+func va3(a int, s string, f float64, v ...string) int { vaRan[1]++; return a + len(s) + int(f) + len(v) }
+
+var vaFns = []*corpus.Fn{
+	{ID: -2, Name: "va2", Fn: va2, Type: reflect.TypeOf(va2), Call: func(form int, a []reflect.Value) []reflect.Value {
+		return reflect.ValueOf(va2).CallSlice(a)
+	}},
+	{ID: -3, Name: "va3", Fn: va3, Type: reflect.TypeOf(va3), Call: func(form int, a []reflect.Value) []reflect.Value {
+		return reflect.ValueOf(va3).CallSlice(a)
+	}},
+}
+
 // origRan reads the run counter of a target's original body
 func origRan(fn *corpus.Fn) int64 {
 	if fn == mxFn {
 		return mxRan
+	}
+	if fn.ID == -2 || fn.ID == -3 {
+		return vaRan[-fn.ID-2]
 	}
 	return corpus.OrigRan[fn.ID]
 }
@@ -161,6 +182,9 @@ func runMistake(ci interface{}, s *vkit.Stats) error {
 		fn = mxFn
 		s.Class("target-is-a-method-expression")
 	}
+	if c.Class == "when-too-few-chained" && c.Fn%2 == 0 {
+		fn = vaFns[(c.Fn/2)%2]
+	}
 	ft := fn.Type
 	b := mocker.Create()
 	defer func() { _ = guard(func() { b.Reset() }) }()
@@ -244,6 +268,43 @@ func runMistake(ci interface{}, s *vkit.Stats) error {
 			res[i] = vkit.Value(ft.Out(i), 1).Interface()
 		}
 		do = func() { b.Func(fn.Fn).When(args...).Return(res...) }
+	case "when-too-few-chained":
+		// the same mistake on the second and third clause of a chain, on variadic targets too (fewer arguments than fixed
+		// parameters): every repetition must be refused, not only the first one of its kind in the process
+		fixed := ft.NumIn()
+		if ft.IsVariadic() {
+			fixed--
+		}
+		if fixed < 2 || ft.NumOut() == 0 {
+			applicable = false
+			break
+		}
+		k := 1 + c.K%(fixed-1)
+		var few, full []interface{}
+		for i := 0; i < fixed; i++ {
+			full = append(full, vkit.Value(ft.In(i), uint64(i+1)).Interface())
+			if i < k {
+				few = append(few, vkit.Value(ft.In(i), uint64(i+1)).Interface())
+			}
+		}
+		if ft.IsVariadic() {
+			full = append(full, vkit.Value(ft.In(fixed).Elem(), 1).Interface())
+			s.Class("chained-too-few-on-a-variadic-target")
+		}
+		res := make([]interface{}, ft.NumOut())
+		for i := range res {
+			res[i] = vkit.Value(ft.Out(i), 1).Interface()
+		}
+		do = func() {
+			w := b.Func(fn.Fn).When(full...).Return(res...)
+			first := guard(func() { w.When(few...).Return(res...) })
+			second := guard(func() { w.When(few...).Return(res...) })
+			b.Reset()
+			if first == nil || second == nil {
+				return // accepted
+			}
+			panic(second)
+		}
 	case "ret-too-few":
 		if ft.NumOut() < 2 {
 			applicable = false
